@@ -171,6 +171,13 @@ def explore(run, tier):
     full = struct.pack('>I', len(base)) + base
     for n in range(0, 24):
         cases.append({'hex': full[:n].hex(), 'expect': 'invalid', 'cls': f'{n} bytes'})
+    # … whatever the first length says (small lengths, the input's own length, zero): fewer than 24 bytes cannot hold
+    # a length prefix, a message type and a bitmap
+    for n in range(4, 24):
+        for first in (0, 1, 4, n - 4, 19, 20, 23, 24):
+            if first >= 0:
+                data = (struct.pack('>I', first) + base)[:n]
+                cases.append({'hex': data.hex(), 'expect': 'invalid', 'cls': f'{n} bytes, first length {first}'})
     # configuration histories: the verdict must follow the configuration in force at the time of the call
     for bit in (3, 12, 24, 48):
         rec = b'1240' + bm([bit]) + b' ' * 30
